@@ -486,6 +486,22 @@ def random_wf(rng, max_groups=6, max_size=6, reuse=True):
     return mk_items(rng, specs), tuple(order)
 
 
+def many_open(rng, ng):
+    """ng groups (sizes 2..3) that are ALL open at the same time: every first sentence arrives before any group
+    completes; the remaining sentences arrive in random order.  (A bounded table of open groups, an eviction policy or a
+    per-reader cache only shows with many groups in flight.)"""
+    gids = rng.sample(range(1, 10 ** 6), ng)
+    specs, firsts, others = [], [], []
+    for gid in gids:
+        size = rng.choice([2, 2, 3])
+        for n in range(1, size + 1):
+            (firsts if n == 1 else others).append(len(specs))
+            specs.append(('g', n, size, gid))
+    rng.shuffle(firsts)
+    rng.shuffle(others)
+    return mk_items(rng, specs), tuple(firsts + others)
+
+
 def boundary_sequences(rng):
     """Hand-made sequences around the provisos; (label, specs in arrival order)."""
     G = lambda n, t, g: ('g', n, t, g, True)   # noqa: E731
@@ -520,6 +536,9 @@ def run(ctx):
     enumerate_configs(ctx, QUICK_CONFIGS if ctx.quick else all_configs(), 'enum')
     batch = [random_wf(rng) for _ in range(ctx.budget(400, 6000))]
     check_batch(ctx, batch, 'random')
+    check_batch(ctx, [many_open(rng, n) for n in ((17, 33, 70) if ctx.quick else (17, 18, 33, 64, 65, 130, 257, 600))],
+                'random-many-open')
+    check_batch(ctx, [many_open(rng, 20)], 'random-many-open+readers', readers=True)
     # through the readers as well
     sample = [random_wf(rng, max_groups=4, max_size=4) for _ in range(ctx.budget(120, 1500))]
     for sizes, nu in QUICK_CONFIGS[:6]:
